@@ -613,4 +613,45 @@ theorem crash_nil (d d' : Disk) (h : Crash [] d d') : d' = d := by
 theorem load_congr {d d' : Disk} (h : d'.main = d.main) : load d' = load d := by
   simp [load, h]
 
+/-! ## RetainManager -/
+
+theorem load_after_writeOps (d : Disk) (s : Snapshot) (bytes : Bytes) (hw : WfSnapshot s)
+    (hb : encodeSnapshot s = .ok bytes) :
+    load (runOps d (writeOps bytes) (writeOps bytes).length) = .ok s := by
+  have hdec : decodeSnapshot bytes = .ok s := by simpa using rt_snapshot s bytes [] hb hw
+  simp [writeOps, runOps, applyOp, Disk.set, Disk.get, load, hdec]
+
+/-- The file holds the snapshot the manager remembers as `last_snapshot`. -/
+def Mgr.Consistent (m : Mgr) : Prop := ∀ l, m.last = some l → load m.disk = .ok l
+
+theorem Mgr.save_consistent (m : Mgr) (s : Snapshot) (hc : m.Consistent) (hw : WfSnapshot s) :
+    (m.save s).1.Consistent := by
+  unfold Mgr.save
+  by_cases h : m.unchanged s = true
+  · simp only [h, if_true]; exact hc
+  · have h' : m.unchanged s = false := by simpa using h
+    cases hb : encodeSnapshot s with
+    | error e => simp only [h']; exact hc
+    | ok bytes =>
+      simp only [h']
+      intro l hl
+      simp only [Bool.false_eq_true, if_false, Option.some.injEq] at hl
+      subst hl
+      exact load_after_writeOps m.disk s bytes hw hb
+
+theorem Mgr.save_result (m : Mgr) (s : Snapshot) (hw : WfSnapshot s) :
+    (m.save s).2 = .ok () ∧
+    ((m.save s).1.last = some s ∨
+      ∃ l, m.last = some l ∧ (m.save s).1.last = some l ∧ snapshotEq l s = true) := by
+  obtain ⟨bytes, hb⟩ := (encodeSnapshot_ok_iff s).mpr hw.2.2.2
+  unfold Mgr.save
+  by_cases h : m.unchanged s = true
+  · simp only [h, if_true, true_and]
+    right
+    unfold Mgr.unchanged at h
+    cases hl : m.last with
+    | none => simp [hl] at h
+    | some l => exact ⟨l, rfl, rfl, by simpa [hl] using h⟩
+  · simp [h, hb]
+
 end TrustVerif.C10
